@@ -57,6 +57,9 @@ def gen_cases(tier, seed):
             j += 1
             yield {'family': 'observer_rerun', 'idx': 10 ** 6 + j, 'seed': seed}
         if rep == 0:
+            j += 1
+            yield {'family': 'stream_names', 'idx': 10 ** 6 + j, 'seed': seed}
+        if rep == 0:
             # every observer once in a process whose locale is not UTF-8, over non-ASCII text
             j += 1
             yield {'family': 'c_locale', 'idx': 10 ** 6 + j, 'seed': seed}
@@ -259,9 +262,43 @@ def run_observer_rerun(case):
                 cov={'observer_x_discarder_x_pos': {'%s|same_flow_three_runs|middle' % obs_kind: 1}}, sample={'config': cfg})
 
 
+def run_stream_names(case):
+    """stream('<path>') publishes the captured stream under exactly the requested name."""
+    d = lab.df()
+    counters = {'downstream_compared': 0, 'observer_content_compared': 0, 'finalizer_calls_checked': 0}
+    viol = []
+    rows = [{'id': i, 's': 'v%d' % i} for i in range(4)]
+    for name in ['capture.dat', 'state', 'x.tsv', 'out/notes.active.bak', 'out/e', 'archive.active', 'data.ndjson', 'cc.cat']:
+        target = os.path.join('sn', name)
+        try:
+            with boot.quiet():
+                res = d.Flow([dict(r) for r in rows], d.stream(target)).results()[0]
+        except Exception as e:
+            viol.append({'kind': 'observer_breaks_run', 'mech': 'stream_path/failed', 'observer': 'stream',
+                         'msg': 'stream(%r) made the run fail: %s' % (target, str(getattr(e, 'cause', e))[:200])})
+            continue
+        counters['downstream_compared'] += 1
+        counters['observer_content_compared'] += 1
+        there = sorted(os.path.relpath(os.path.join(dp_, f_), 'sn') for dp_, _, fs_ in os.walk('sn') for f_ in fs_)
+        if not os.path.isfile(target):
+            viol.append({'kind': 'stream_published_name', 'mech': 'stream_path/published_under_another_name', 'observer': 'stream',
+                         'msg': 'stream(%r): no file of that name after the run; files: %r' % (target, there)})
+        else:
+            sdesc, sres, complete, problems = iolab.parse_ndjson(open(target).read())
+            if not complete or [len(r) for r in sres] != [len(rows)]:
+                viol.append({'kind': 'stream_incomplete', 'mech': 'stream_path/content', 'observer': 'stream',
+                             'msg': 'stream(%r): file incomplete: %s' % (target, problems)})
+        import shutil
+        shutil.rmtree('sn', ignore_errors=True)
+    return dict(nontrivial=True, violations=viol, counters=counters,
+                cov={'observer_x_discarder_x_pos': {'stream|path_names|last': 1}}, sample={'names': 8})
+
+
 def run_case(case):
     if case['family'] == 'c_locale':
         return run_c_locale(case)
+    if case['family'] == 'stream_names':
+        return run_stream_names(case)
     if case['family'] == 'observer_rerun':
         return run_observer_rerun(case)
     kind = case['family']
